@@ -108,8 +108,8 @@ def twin_of(slot, form):
 
 
 # additionally every string one symbol longer than the full-alphabet bound over this core
-CORE_STR = ["\r", "\n", "\x00", ":", ";", "\u0100", "a"]
-CORE_BYTES = [b"\r", b"\n", b"\x00", b":", b";", b"\xff", b"a"]
+CORE_STR = ["\r", "\n", "\x00", ":", ";", "\u0100", "a", " "]
+CORE_BYTES = [b"\r", b"\n", b"\x00", b":", b";", b"\xff", b"a", b" "]
 
 
 def strings(slot, maxlen, core_len=0):
@@ -443,7 +443,7 @@ class C07(Check):
     design_ref = "DESIGN.md §2 C07"
     rule = ("every string of length <= 2 (quick) / <= 3 (thorough) over {CR LF NUL SP HTAB : ; , \" DEL "
             "0x80 0xFF U+0100 U+2028 a} (bytes slots: the 13 single-byte symbols), plus length 3 "
-            "(quick) / 4 (thorough) over {CR LF NUL : ; U+0100 a}, each alone and embedded as ok<s>ok, "
+            "(quick) / 4 (thorough) over {CR LF NUL : ; U+0100 a SP}, each alone and embedded as ok<s>ok, "
             "through each of 32 API slots (set_header/add_header name+value str/bytes, set_status / "
             "HTTPError / send_error reason, redirect url, set_cookie name/value/domain/path/samesite/expires/max_age/"
             "legacy kwargs, clear_cookie, set_signed_cookie name, HTTPConnection.write_headers "
